@@ -183,6 +183,11 @@ func (c04) Gen(r *rand.Rand, tier string, run int) *core.Case {
 			c.Ops = append(c.Ops, core.Op{Kind: "raw", Actor: 100, X: int64(typ), Y: int64([]int{ActSlow, ActSlow, ActFire}[r.IntN(3)]), S: "valid"})
 		}
 	}
+	if c.Params["lend"] == 1 && r.IntN(2) == 0 {
+		for i := 0; i < 1+r.IntN(4); i++ {
+			c.Ops = append(c.Ops, core.Op{Kind: "raw", Actor: 100, X: int64(1 + r.IntN(8)), Y: int64(r.IntN(4)), S: "lent"})
+		}
+	}
 	if c.Params["raw"] == 1 {
 		n := 2 + r.IntN(8)
 		for i := 0; i < n; i++ {
@@ -485,6 +490,17 @@ func c04raws(env *core.Env, st *c04state, ops []core.Op) {
 		case "auth":
 			svc, obj, act = 0, 0, 8
 			payload = ref.AuthPayload("u", "p")
+		case "lent":
+			// a frame of any kind addressed to an object hosted by a client,
+			// under the identifier the service exposes it with
+			obj = w.Impls[int(op.Y)%len(w.Impls)].LentPublicID()
+			if obj == 0 {
+				continue
+			}
+			act = ActEcho
+			payload = ref.EncodeToken(tok)
+			key = tok.Key()
+			env.Probe("raw-frames-to-lent-objects")
 		}
 		rec := c04raw{id: id, typ: uint8(op.X), act: act, key: key, pay: op.S}
 		h := env.Invoke(100, "raw-"+ref.TypeName(uint8(op.X)), fmt.Sprintf("a%d id%d %s %s", act, id, op.S, key))
